@@ -419,7 +419,8 @@ def jobs(tier: str):
     out: List[Dict[str, Any]] = []
     for cls, nmax in (("sse", b["items_sse"]), ("stream", b["items_stream"])):
         for n in range(0, nmax + 1):
-            base = dict(kind="asgi", cls=cls, items=n, tail_delay=(tier == "thorough"))
+            # the producer's delay after its last item: thorough only, and not together with 2 SSE items (that job alone ran past 50 minutes)
+            base = dict(kind="asgi", cls=cls, items=n, tail_delay=(tier == "thorough" and not (cls == "sse" and n >= 2)))
             variants = [dict(base, name=f"asgi/{cls}/n{n}/disconnect"), dict(base, name=f"asgi/{cls}/n{n}/never", never_disconnect=True)]
             for k in range(0, n + 1):
                 variants.append(dict(base, name=f"asgi/{cls}/n{n}/raise{k}", raise_at=k))
@@ -428,7 +429,7 @@ def jobs(tier: str):
                 heavy = (cls == "sse" and n >= 1) or (cls != "sse" and n >= 3)
                 v["weight"] = 30 ** n if cls == "sse" else 6 ** n
                 if heavy and not (v.get("never_disconnect") and n < 2):
-                    out.extend(_split(v, 9 if n < 2 else 12))
+                    out.extend(_split(v, 9 if n < 2 else 14))
                 else:
                     out.append(v)
     # fast-producer recipe: one more item than the general bound, producer delays fixed to 0
